@@ -69,7 +69,9 @@ def _eval_status(node):
 def extract_proxy() -> dict:
     core.setup_import_path()
     src = (core.REPO / "src" / "nauyaca" / "server" / "proxy.py").read_text()
-    t = ast.parse(src)
+    from ..extract import inline_constants
+
+    t = inline_constants(ast.parse(src))
     out: dict = {k: None for k in ("proxyFollowRedirects", "proxyDecodeText", "proxyTofu", "proxyStatusTimeout", "proxyStatusConnection",
                                    "proxyStatusOther", "proxyUrlParts", "proxyPathSource", "proxyQuerySource")}
     cls = next((n for n in ast.walk(t) if isinstance(n, ast.ClassDef) and n.name == "ProxyHandler"), None)
@@ -85,7 +87,18 @@ def extract_proxy() -> dict:
                     v = kws.get(key)
                     out[name] = default if v is None else (v.value if isinstance(v, ast.Constant) and isinstance(v.value, bool) else None)
     if run is not None:
-        gets = [n for n in ast.walk(run) if isinstance(n, ast.Call) and ast.unparse(n.func) == "self._client.get"]
+        # the fetch sits in `_handle_async` or in a private coroutine of the class it was moved into; in the second case the call
+        # of that coroutine must not itself sit in a `try` of `_handle_async` (one layer of handlers is what the table describes)
+        from ..extract import _with_private_callees
+
+        scope = [f for f in _with_private_callees(cls, run) if f is run or any(f is m for m in cls.body)]
+        gets = [n for f in scope for n in ast.walk(f) if isinstance(n, ast.Call) and ast.unparse(n.func) == "self._client.get"]
+        holder = next((f for f in scope if gets and any(n is gets[0] for n in ast.walk(f))), None)
+        if holder is not None and holder is not run:
+            wrapped = any(isinstance(tr, ast.Try) and any(isinstance(c, ast.Call) and getattr(c.func, "attr", "") == holder.name for b in tr.body for c in ast.walk(b))
+                          for tr in ast.walk(run))
+            if wrapped:
+                gets = []
         if len(gets) == 1:
             kws = {kw.arg: kw.value for kw in gets[0].keywords}
             v = kws.get("follow_redirects")
@@ -93,7 +106,7 @@ def extract_proxy() -> dict:
                 v = gets[0].args[1]
             out["proxyFollowRedirects"] = True if v is None else (v.value if isinstance(v, ast.Constant) and isinstance(v.value, bool) else None)
             # the try statement around the fetch
-            for tr in ast.walk(run):
+            for tr in ast.walk(holder):
                 if isinstance(tr, ast.Try) and any(g is gets[0] for b in tr.body for g in ast.walk(b)):
                     for cls_name, accepted in CLASS_ORDER.items():
                         status = 40  # nothing catches it: the server layer answers 40
